@@ -35,6 +35,33 @@
 //! caller's side of the contract. (Observed while building this check: `HashJoinExec` in CollectLeft mode
 //! re-yields a build-side error on every later poll, forever — harmless under that contract, and therefore
 //! not reported.)
+//!
+//! **Genuine defect found** (known finding `nlj-fallback-reexecutes-left-child`, regression case
+//! `/verif/regressions/C20/c20/nlj-fallback-reexecutes-left-child.json`, repair
+//! `/verif/fixes/C20-nlj-fallback-reexecutes-left-child.diff`): when the in-memory load of the left side of a
+//! `NestedLoopJoinExec` is refused memory, `initiate_fallback` executes the *already executed* left child a
+//! second time; a `RepartitionExec` below it (target_partitions ≥ 2) hands out every output partition only
+//! once and panics with "partition not used yet" (repartition/mod.rs, `.expect`). The query dies with a task
+//! panic instead of `ResourcesExhausted` / a completed fallback. Reproduced with plain SQL in datafusion-cli
+//! (`-m 500k`; `set datafusion.execution.target_partitions = 2; set datafusion.optimizer.join_reordering =
+//! false; create table t as select value as id, value % 4 as k from generate_series(0, 20000); create table u
+//! as select value as id2, value % 5 as k from generate_series(0, 50); select count(*) from (select t.id,
+//! u.id2 from (select id, k from t group by id, k) t join u on (t.k + u.k) % 97 = 0);`). The repair
+//! re-executes `reset_plan_states(left_plan)`; with it (mutrun) the regression case and `C20 quick` pass.
+//! Until the repair is committed the class NestedLoop × MemRefuse{disk} × target_partitions ≥ 2 is excluded
+//! through `known_signature` (counter `known_excluded`).
+//!
+//! **Sensitivity probes** (patches in `crates/vf-res/probes/`, run with `tools/mutrun <patch> -- ./check C20
+//! quick`; all on VERIF_SEED=0):
+//! * `c20-p1-repartition-input-error-as-eof.diff` — `RepartitionExec::wait_for_task` sends `None` instead of
+//!   the input task's error to the outputs → VIOLATION after 9 evaluations (UDF-in-filter and source faults:
+//!   "ended successfully but not with the fault-free result: expected 3 rows, got 0").
+//! * `c20-p2-hashjoin-build-error-as-eof.diff` — `collect_left_input` of the hash join stops at the first
+//!   `Err` of the build side as if it were the end of input → VIOLATION after 16 evaluations.
+//! * `c20-p3-sort-ignores-spill-write-error.diff` — `ExternalSorter::consume_and_spill_append` skips a batch
+//!   whose `append_batch` failed → VIOLATION after 68 evaluations (SpillIo Write fault, window over sort: 340
+//!   of 404 rows). The shrunk case did not re-confirm: with several partitions the global "k-th write" lands
+//!   in a scheduling-dependent file, so spill fault points are only reproducible for single-partition plans.
 use crate::c18::{limit_bytes, pick, shape_strategy};
 use crate::data::{DataSpec, Which, multiset_diff, schema, sequence_diff, sub_multiset};
 use crate::env::*;
@@ -410,7 +437,8 @@ impl Property for C20 {
         };
         // un-ordered LIMIT: any min(n, |full|) rows of the un-LIMITed result are a correct answer
         let full: Option<Vec<String>> = if sub_limit {
-            match one_run(case, &inp, site, Point::None, mem_limit, &q.sql(site, false)) {
+            // (run without the memory limit: the un-LIMITed query may need more memory than the LIMITed one)
+            match one_run(case, &inp, site, Point::None, None, &q.sql(site, false)) {
                 RunEnd::Finished(o) => match o.end {
                     StreamEnd::Done(r) => Some(r),
                     _ => return done(CaseResult::inconclusive("fault-free un-LIMITed run failed"), &mut labels),
